@@ -43,6 +43,11 @@ type FanoutInput struct {
 	Replica int     `json:"replica"` // THANOS-REPLICA header value; 0 = header absent (not yet replicated)
 	Place   [][]int `json:"place"`   // Place[series][replica] = node the fake hashring returns
 	Writes  []Write `json:"writes"`
+	// Workers is the size of every peer's worker pool (0 = 16: never saturated).
+	// With a small pool some writes are rejected by the non-blocking first pass
+	// of sendWrites and go through the blocking second pass; responses are then
+	// released in script order as far as the pool lets them start.
+	Workers int `json:"workers,omitempty"`
 }
 
 // Kinds in the order used by the Coq models.
@@ -129,6 +134,7 @@ type script struct {
 	cond      *sync.Cond
 	parked    map[wkey]chan error
 	delivered map[wkey][]int
+	count     map[wkey]int
 	ndeliv    int
 }
 
@@ -146,6 +152,7 @@ func (s *script) Await(_ context.Context, ep string, rep uint64, _ *storepb.Writ
 func (s *script) Delivered(ep string, rep uint64, ids []int, _ error) {
 	s.mu.Lock()
 	s.delivered[wkey{ep, rep}] = append([]int(nil), ids...)
+	s.count[wkey{ep, rep}]++
 	s.ndeliv++
 	s.cond.Broadcast()
 	s.mu.Unlock()
@@ -156,7 +163,9 @@ type FanoutResult struct {
 	Status            int     `json:"status"`
 	Body              string  `json:"body"`
 	DeliveredAtReturn int     `json:"delivered_at_return"` // responses on the channel when the handler returned (>= consumed)
-	IDs               [][]int `json:"ids"`                 // series ids the handler attached to each write (in Writes order)
+	IDs               [][]int `json:"ids"`                 // series ids the handler attached to each write (in release order)
+	Order             []int   `json:"order"`               // indices into Writes in the order the responses were actually released
+	Responses         []int   `json:"responses"`           // number of responses each write produced (in Writes order)
 }
 
 // RunFanout sends one remote-write request with len(in.Place) series through
@@ -189,9 +198,13 @@ func RunFanout(in *FanoutInput) (*FanoutResult, error) {
 		ReceiverMode:      receive.RouterIngestor,
 		Endpoint:          "self-not-in-ring",
 	})
-	sc := &script{parked: map[wkey]chan error{}, delivered: map[wkey][]int{}}
+	sc := &script{parked: map[wkey]chan error{}, delivered: map[wkey][]int{}, count: map[wkey]int{}}
 	sc.cond = sync.NewCond(&sc.mu)
-	receive.VerifSetPeers(h, sc, 16)
+	workers := uint(16)
+	if in.Workers > 0 {
+		workers = uint(in.Workers)
+	}
+	receive.VerifSetPeers(h, sc, workers)
 	defer receive.VerifClosePeers(h)
 	h.Hashring(&fakeRing{place: in.Place})
 
@@ -251,7 +264,7 @@ func RunFanout(in *FanoutInput) (*FanoutResult, error) {
 			}
 		}
 	}()
-	deadline := time.Now().Add(20 * time.Second)
+	deadline := time.Now().Add(60 * time.Second)
 	waitFor := func(cond func() bool) bool {
 		sc.mu.Lock()
 		defer sc.mu.Unlock()
@@ -263,22 +276,61 @@ func RunFanout(in *FanoutInput) (*FanoutResult, error) {
 		}
 		return true
 	}
-	// all writes parked (or the handler gave up before fanning out)
-	if !waitFor(func() bool { return len(sc.parked) == len(in.Writes) || returned.Load() }) {
-		return nil, fmt.Errorf("timeout waiting for %d forwarded writes (got %d)", len(in.Writes), len(sc.parked))
+	keyOf := func(w Write) wkey { return wkey{fmt.Sprintf("node-%d", w.Node), uint64(w.Rep)} }
+	var order []int
+	if in.Workers == 0 {
+		// all writes parked (or the handler gave up before fanning out)
+		if !waitFor(func() bool { return len(sc.parked) == len(in.Writes) || returned.Load() }) {
+			return nil, fmt.Errorf("timeout waiting for %d forwarded writes (got %d)", len(in.Writes), len(sc.parked))
+		}
 	}
-	for k, w := range in.Writes {
-		key := wkey{fmt.Sprintf("node-%d", w.Node), uint64(w.Rep)}
-		sc.mu.Lock()
-		ch := sc.parked[key]
-		sc.mu.Unlock()
-		if ch == nil {
-			if returned.Load() {
+	releasedSet := map[int]bool{}
+	for k := 0; k < len(in.Writes); k++ {
+		// next write in script order that has started; with a saturated pool a
+		// write may only start after an earlier one on the same peer finished
+		pick := -1
+		choose := func() bool {
+			pick = -1
+			for i, w := range in.Writes {
+				if !releasedSet[i] && sc.parked[keyOf(w)] != nil {
+					pick = i
+					return true
+				}
+			}
+			return false
+		}
+		if in.Workers > 0 {
+			// give the script's next write a moment to start, so that the script
+			// order is followed where the pool allows it (preference only)
+			next := -1
+			for i := range in.Writes {
+				if !releasedSet[i] {
+					next = i
+					break
+				}
+			}
+			soft := time.Now().Add(30 * time.Millisecond)
+			sc.mu.Lock()
+			for sc.parked[keyOf(in.Writes[next])] == nil && time.Now().Before(soft) {
+				sc.cond.Wait()
+			}
+			sc.mu.Unlock()
+		}
+		if !waitFor(choose) {
+			sc.mu.Lock()
+			none := len(sc.parked) == 0
+			sc.mu.Unlock()
+			if returned.Load() && none {
 				break // nothing was forwarded
 			}
-			return nil, fmt.Errorf("write %v was never forwarded", key)
+			return nil, fmt.Errorf("timeout: %d of %d writes never started", len(in.Writes)-k, len(in.Writes))
 		}
-		ch <- kindErr(w.Kind)
+		sc.mu.Lock()
+		ch := sc.parked[keyOf(in.Writes[pick])]
+		sc.mu.Unlock()
+		releasedSet[pick] = true
+		order = append(order, pick)
+		ch <- kindErr(in.Writes[pick].Kind)
 		if !waitFor(func() bool { return sc.ndeliv >= k+1 }) {
 			return nil, fmt.Errorf("timeout waiting for delivery of response %d", k)
 		}
@@ -296,12 +348,18 @@ func RunFanout(in *FanoutInput) (*FanoutResult, error) {
 	if panicked != nil {
 		return nil, fmt.Errorf("handler panicked: %v", panicked)
 	}
-	res := &FanoutResult{Status: rec.Code, Body: rec.Body.String(), DeliveredAtReturn: int(atReturn.Load())}
+	res := &FanoutResult{Status: rec.Code, Body: rec.Body.String(), DeliveredAtReturn: int(atReturn.Load()), Order: order}
+	// every released write must have produced its response by now; give the
+	// asynchronous completion callbacks a moment and then count
+	waitFor(func() bool { return sc.ndeliv >= len(order) })
 	sc.mu.Lock()
-	for _, w := range in.Writes {
-		ids := append([]int(nil), sc.delivered[wkey{fmt.Sprintf("node-%d", w.Node), uint64(w.Rep)}]...)
+	for _, i := range order {
+		ids := append([]int(nil), sc.delivered[keyOf(in.Writes[i])]...)
 		sort.Ints(ids)
 		res.IDs = append(res.IDs, ids)
+	}
+	for _, w := range in.Writes {
+		res.Responses = append(res.Responses, sc.count[keyOf(w)])
 	}
 	sc.mu.Unlock()
 	return res, nil
